@@ -230,7 +230,7 @@ def run_case(case):
 FAMILIES = {
     "quick": [
         dict(gridlens=[[], [2], [1, 2]], repmaxes=[1, 2, 3], kgkinds=[["always"], ["stopAt", 1], ["stopAt", 2], ["noSkip"]],
-             skipsets=[[], [1], [2], [1, 2], [2, 3], [3]], modes=[["all"], ["single", 2]], maxsim=1, exhaustive=2),
+             skipsets=[[], [1], [2], [1, 2], [2, 3], [3]], modes=[["all"], ["single", 1], ["single", 2]], maxsim=1, exhaustive=2),
         dict(gridlens=[[2, 2], [3], [2, 1, 2]], repmaxes=[2, 3], kgkinds=[["always"], ["stopAt", 2], ["noSkip"]],
              skipsets=[[], [1], [2], [1, 3]], modes=[["all"], ["single", 3]], maxsim=2, exhaustive=0),
     ],
@@ -286,7 +286,7 @@ def run(ctx):
     # parameter grid algebra: order and lookup (Params.tla)
     for universe, maxlen, label in ([([[1, 2, 3], [1, 2]], [2, 2], "lookup/2params"), ([[1, 2, 3, 4]], [3], "lookup/1param")] +
                                    ([([[1, 2, 3], [1, 2, 3], [1, 2]], [2, 2, 2], "lookup/3params")] if ctx.tier == "thorough"
-                                    else [([[1, 2], [1, 2], [1, 2]], [2, 1, 2], "lookup/3params")])):
+                                    else [([[1, 2], [1, 2], [1, 2]], [2, 2, 2], "lookup/3params")])):
         r = pc.run_tlc(ctx, "lookup", universe, maxlen, label)
         res = pool_map(pc.run_case, r.emitted, chunksize=max(1, len(r.emitted) // 64))
         for c, d in zip(r.emitted, res):
